@@ -19,7 +19,16 @@ lane() {
   for n in "${names[@]}"; do
     k=$((k+1)); [ $(( (k-1) % LANES )) -ne "$i" ] && continue
     id=${n%%-*}
-    if ! git -C "$L/repo" apply "/verif/seeded/$n/patch.diff" 2>/dev/null; then echo "$n: patch does not apply"; continue; fi
+    if ! git -C "$L/repo" apply "/verif/seeded/$n/patch.diff" 2>/dev/null; then
+      # /repo has moved on (fix: commits): rebase the change with a three-way merge and keep the rebased patch
+      if git -C "$L/repo" apply --3way "/verif/seeded/$n/patch.diff" >/dev/null 2>&1 && [ -z "$(git -C "$L/repo" diff --name-only --diff-filter=U)" ]; then
+        [ -f "/verif/seeded/$n/patch.original.diff" ] || cp "/verif/seeded/$n/patch.diff" "/verif/seeded/$n/patch.original.diff"
+        git -C "$L/repo" reset -q; git -C "$L/repo" diff > "/verif/seeded/$n/patch.diff"
+        echo "$n: (patch rebased onto the current tree)"
+      else
+        git -C "$L/repo" reset -q --hard; echo "$n: patch does not apply (manual rebase needed)"; continue
+      fi
+    fi
     out=$("$L/verif/vcheck" "$id" quick 2>&1 | grep -v "^KNOWN-FINDING" | grep -E "^(VIOLATION|OK|generator|vcheck)|signature:|reproducible" | head -2 | tr '\n' ' ' | sed "s#$L/verif#/verif#g" | cut -c1-300)
     git -C "$L/repo" checkout -- .
     echo "$n: $out"
